@@ -644,7 +644,7 @@ class Interp:
 
     def _weak_update(self, target_expr, base, val, env, st):
         """x[...] = v: the value annotation of x absorbs v (for value-tracking domains)."""
-        if getattr(self.dom, "value_semantics", False) and isinstance(target_expr, ast.Name) and base.kind in ("tensor", "top"):
+        if getattr(self.dom, "value_semantics", False) and getattr(self.dom, "store_updates_value", True) and isinstance(target_expr, ast.Name) and base.kind in ("tensor", "top"):
             env.set(target_expr.id, AV(base.kind, None, self.dom.join_ann(base.ann, all_ann(self.dom, val)), base.maybe_none))
 
     def assign(self, t, v, env, st):
@@ -971,7 +971,9 @@ class Interp:
         if k in ("tensor",):
             if attr == "shape":
                 return AV("shape", None, self.dom.shape_ann(base.ann))
-            if attr in ("device", "dtype", "requires_grad", "is_cuda", "ndim"):
+            if attr == "dtype":
+                return AV("dtype", None, base.ann)
+            if attr in ("device", "requires_grad", "is_cuda", "ndim"):
                 return AV("num", None, E)
             if attr in ("data", "T", "mT", "real"):
                 info = dict(tops.OPS["detach" if attr == "data" else "t"])
